@@ -5,7 +5,7 @@ from .. import vfcore as V
 from ..instrument import instrument, run_calls
 
 PROP = "C08"
-TARGETS = ["theories/Registry/Proofs.vo", "theories/Registry/Unbounded.vo"]
+TARGETS = ["theories/Registry/Proofs.vo", "theories/Registry/Unbounded.vo", "theories/Handover/Proofs.vo"]
 GO = ["zz_verif_registry_test.go", "zz_verif_fakes_test.go", "zz_verif_routing_test.go"]
 ANCHORS = ["shard_manager", "proxy_streams", "intra_proxy_router"]
 EXPECTED_PROGS = {"sr": "SetRemoteSendChan RegisterShard", "sc": "close UnregisterShard RemoveRemoteSendChan",
@@ -352,6 +352,37 @@ def intra_scenarios(rng, n):
     return res
 
 
+def settled_scenarios(rng, n):
+    """every operation followed by a pause, capacities never reached: the outcome is a function of the operation order"""
+    res = []
+    for k in range(n):
+        ev = ["IR s%d" % k, "REG 1 64", "W"]
+        live, inc, mid = 1, 1, 0
+        for _ in range(rng.range(3, 9)):
+            r = rng.below(100)
+            if r < 45:
+                mid += 1
+                ev += ["MSG %d" % mid, "W"]
+            elif r < 60 and live is not None:
+                ev += ["TAKE %d %d" % (live, rng.range(1, 2)), "W"]
+            elif r < 90:
+                inc += 1
+                order = rng.below(4)
+                if order == 3:
+                    mid += 1
+                    ev += ["CLOSE %d" % live, "W", "MSG %d" % mid, "W", "REM %d" % live, "W", "REG %d 64" % inc, "W"]
+                elif order == 2:
+                    ev += ["REG %d 64" % inc, "W", "CLOSE %d" % live, "W", "REM %d" % live, "W"]
+                else:
+                    ev += ["CLOSE %d" % live, "W", "REM %d" % live, "W", "REG %d 64" % inc, "W"]
+                live = inc
+            else:
+                ev.append("W")
+        ev += ["W", "END"]
+        res.append(ev)
+    return res
+
+
 def intra_monitor(ev, lines):
     bad = []
     sent = [int(e.split()[1]) for e in ev if e.startswith("MSG ")]
@@ -493,6 +524,43 @@ def check(tier, seed):
                 imon.append((sc, b))
             else:
                 ck.notes.append("intra-proxy hand-over scenario %s flagged once and not reproduced in 3 re-runs (timing): %s" % (sc[0], b[0][:200]))
+    # correspondence with the hand-over model (Handover/Model.v) on settled scenarios: ample channel capacity and a pause
+    # after every operation make the real receiver's outcome deterministic
+    hok, hlog, hexe = V.ocaml_build("handover_driver", "ExtractHandover.v", "handover_model.ml", "handover_driver.ml")
+    ck.obligation("extraction + driver build (hand-over model)", hok, hlog[-1500:])
+    settled = settled_scenarios(rng, 10 if tier == "quick" else 120)
+    hdiff = []
+    if hok:
+        herr, hres = run_intra(settled, "settled")
+        rc, mout = V.run([hexe], input="".join("\n".join(sc) + "\n" for sc in settled), timeout=300)
+        if herr or rc != 0:
+            hdiff.append(("harness", (herr or mout)[-800:]))
+        else:
+            mres = parse_blocks(mout)
+            for sc in settled:
+                nm = sc[0].split()[1]
+                if hres.get(nm) != mres.get(nm):
+                    # real time: a difference must reproduce
+                    again = 0
+                    for _ in range(3):
+                        e2, r2 = run_intra([sc], "settledr")
+                        if not e2 and r2.get(nm) != mres.get(nm):
+                            again += 1
+                    if again:
+                        hdiff.append((sc, "impl %s / model %s" % (hres.get(nm), mres.get(nm))))
+    ck.obligation("correspondence: the real intra-proxy receiver's hand-over = extracted Handover.Model on %d settled scenarios (which incarnation took which batch, what went down with a closed "
+                  "channel)" % len(settled), hok and not hdiff, "; ".join(str(d[1])[:300] for d in hdiff[:2]))
+    if hdiff and not mon and not smon and not imon:
+        sc, txt = hdiff[0]
+        if sc == "harness":
+            ck.violation({"kind": "harness", "log": txt, "broken": "C08 hand-over correspondence"}, txt[:300], no_input=True)
+        else:
+            b = intra_monitor(sc, hres.get(sc[0].split()[1], []))
+            if b:
+                ck.violation({"kind": "intra", "events": sc, "impl": hres.get(sc[0].split()[1], []), "verdict": b[0]}, b[0][:300])
+            else:
+                ck.violation({"kind": "unproved", "broken": ["correspondence Handover.Model <-> intraProxyStreamReceiver.recvReplicationMessages"], "events": sc, "detail": txt,
+                              "search": "the hand-over monitor finds no lost, duplicated or reordered batch in this scenario"}, "hand-over correspondence differs: " + txt[:300], no_input=True)
     ck.obligation("intra-proxy receiver: across reconnects of the target shard's sender (channel closed, removed, successor registered, in every order, receiver blocked on a full buffer or not) "
                   "every batch from the peer is taken exactly once, in order, by an incarnation that was live (%d scenarios)" % len(irs), not imon, "; ".join(b[0] for _, b in imon[:3]))
     if imon and not mon and not smon:
@@ -579,7 +647,9 @@ MANIFEST = {
             "it is its own (any state, any incarnation); and, unbounded, for ANY operation sequence (any number of incarnations, any interleaving) the sender-side entries registered last survive "
             "every other incarnation's cleanup, guarded replays never crash, and (theories/Registry/Unbounded.v) the receiver-side entries of an incarnation that published its channel and registered "
             "while every other incarnation only cleaned up are all its own at the end with the lock free (C08_receiver_newest_survives, for every lock-respecting sequence and hence every execution), "
-            "and nothing remains once it has cleaned up too (C08_receiver_all_ended_empty). The model's atomicity is tied to the code by enumerating every schedule of the real "
+            "and nothing remains once it has cleaned up too (C08_receiver_all_ended_empty). The intra-proxy receiver's hand-over has its own model (theories/Handover): for any sequence of "
+            "registrations, closes, removals, batches and attempts nothing is lost, duplicated or reordered, a batch only goes to the registered incarnation whose channel is open, an open registered "
+            "channel always makes progress, and a receiver that resolved the channel once per batch is refuted (C08_handover_*); the extracted model is compared with the real receiver on settled scenarios. The model's atomicity is tied to the code by enumerating every schedule of the real "
             "methods at lock boundaries and comparing the sets of final states.",
     "note": "Sender-side and receiver-side survival and crash-freedom are unbounded (any number of incarnations); the 2-3 incarnation statements are exhaustive explorations that also cover the eviction of the predecessor; an incarnation that starts registering before its predecessor has registered is outside the statement (the proxy cannot order them). Registration identity is the "
             "time.Now() stamp. Goroutine leak is observed on whole streams (handlers returning), not proved. Also exercised (monitor only, real time): the intra-proxy receiver's hand-over of batches across reconnects of the target shard's sender (go/overlay/proxy/zz_verif_intrarecv_test.go), and stream opens refused by the local server.",
